@@ -687,6 +687,26 @@ func vErrKind(err error) (string, int64) {
 	return "other", 0
 }
 
+// vDeadlineCtx is a caller's context that ends like a deadline context (Err = context.DeadlineExceeded) when told to.
+type vDeadlineCtx struct {
+	context.Context
+	done chan struct{}
+	once sync.Once
+	dl   time.Time
+}
+
+func (c *vDeadlineCtx) Done() <-chan struct{}       { return c.done }
+func (c *vDeadlineCtx) Deadline() (time.Time, bool) { return c.dl, true }
+func (c *vDeadlineCtx) expire()                     { c.once.Do(func() { close(c.done) }) }
+func (c *vDeadlineCtx) Err() error {
+	select {
+	case <-c.done:
+		return context.DeadlineExceeded
+	default:
+		return nil
+	}
+}
+
 func (r *vRun) startCall(k string) {
 	st := r.newCall(context.Background(), k)
 	go r.doCall(st, k)
@@ -699,6 +719,13 @@ func (r *vRun) newCall(parent context.Context, k string) *vCallState {
 	// (ctx.Err(), i.e. context.Canceled), which is what callers test for
 	ctx, cancelCause := context.WithCancelCause(context.WithoutCancel(parent))
 	st := &vCallState{ctx: ctx, cancel: func() { cancelCause(errVerifCause) }, done: make(chan struct{})}
+	if n := len(k); n > 0 && (k[n-1]-'0')%2 == 0 && k[n-1] >= '0' && k[n-1] <= '9' {
+		// every second caller gives up by DEADLINE instead of by cancel(): its context ends with context.DeadlineExceeded
+		// at the moment the script says `cancel` (the property speaks of "the caller's context ends", whatever ended it)
+		dc := &vDeadlineCtx{Context: context.WithoutCancel(parent), done: make(chan struct{}), dl: time.Now().Add(time.Hour)}
+		cancelCause(nil) // the unused cancel context must not leak
+		st = &vCallState{ctx: dc, cancel: dc.expire, done: make(chan struct{})}
+	}
 	r.mu.Lock()
 	r.calls[k] = st
 	r.mu.Unlock()
